@@ -477,7 +477,9 @@ fn cmd_delta_cases(args: &[String]) {
                         for v in o.viol { out.push(json!({"kind":"violation","case":ci,"R":r,"what":v,"input":{"basis":c["basis"],"source":c["source"],"B":b,"chunk_seed":cs}})); }
                         for v in o.nonconf { out.push(json!({"kind":"nonconf","case":ci,"R":r,"what":v})); }
                         // CLI on a rotating subset
-                        let pick = if thorough { (ci + r) % 97 == 0 } else { (ci + r / 512) % 211 == 0 };
+                        // the CLI is always run on permutation-like cases (every source block is in the basis, same length, different file)
+                        let permuted = has_c && !has_l && c["basis"] != c["source"] && c["basis"].as_array().unwrap().len() == c["source"].as_array().unwrap().len() && r <= 2048;
+                        let pick = permuted || if thorough { (ci + r) % 97 == 0 } else { (ci + r / 512) % 211 == 0 };
                         if pick && r <= 8192 || (pick && has_c && has_l) {
                             cli += 1;
                             for v in deltae::check_cli(copia, &dir, &basis, &source, r, d.as_ref()) {
@@ -901,7 +903,7 @@ fn cmd_patch_random(args: &[String]) {
                         if let DeltaOp::Literal(x) = &mut d.ops[i] { if !x.is_empty() { let j = rng.gen_range(0..x.len()); x[j] ^= 1 << rng.gen_range(0..8); } }
                     }
                 }
-                10 => { d.source_size = if rng.gen() { d.source_size + rng.gen_range(1..5) } else { d.source_size.saturating_sub(rng.gen_range(1..5)) }; }
+                10 => { d.source_size = match rng.gen_range(0..5) { 0 => 0, 1 => rng.gen_range(0..600), 2 => d.source_size / 2, 3 => d.source_size + rng.gen_range(1..5), _ => d.source_size.saturating_sub(rng.gen_range(1..5)) }; }
                 11 => { d.basis_size = match rng.gen_range(0..4) { 0 => 0, 1 => d.basis_size.saturating_sub(rng.gen_range(1..3000)), 2 => d.basis_size + rng.gen_range(1..3000), _ => { if k % 40 == 0 { huge = true; u64::MAX } else { d.basis_size + 100_000 } } }; }
                 12 => { d.block_size = [0u32, 1, 1000, 4096, 1 << 20, u32::MAX][rng.gen_range(0..6)]; }
                 13 => { let mut h = *d.checksum.as_bytes(); h[rng.gen_range(0..32)] ^= 1 << rng.gen_range(0..8); d.checksum = StrongHash::from_bytes(h); }
